@@ -1,0 +1,68 @@
+//go:build verif
+
+package validate
+
+import (
+	re "regexp"
+)
+
+// Verification hooks (build tag "verif"): pool traffic is reported to settable callbacks and a
+// few unexported helpers are exported for the correspondence harness. Nothing here changes
+// the behaviour of the package when the callbacks are nil.
+
+const verifEnabled = true
+
+// VerifHooks are called on every borrow from / redeem to one of the pools.
+var VerifHooks struct {
+	OnBorrow func(pool string, obj any)
+	OnRedeem func(pool string, obj any)
+}
+
+func verifBorrow[T any](pool string, obj T) T {
+	if f := VerifHooks.OnBorrow; f != nil {
+		f(pool, obj)
+	}
+	return obj
+}
+
+func verifRedeemed(pool string, obj any) {
+	if f := VerifHooks.OnRedeem; f != nil {
+		f(pool, obj)
+	}
+}
+
+// VerifResetPools replaces every pool by a fresh one.
+func VerifResetPools() { resetPools() }
+
+// VerifEmptyResult returns the shared immutable empty result.
+func VerifEmptyResult() *Result { return emptyResult }
+
+// VerifExtractPathParams exposes pathHelper.extractPathParams.
+func VerifExtractPathParams(path string) []string { return pathHelp.extractPathParams(path) }
+
+// VerifStripParametersInPath exposes pathHelper.stripParametersInPath.
+func VerifStripParametersInPath(path string) string { return pathHelp.stripParametersInPath(path) }
+
+// VerifIsVisited exposes the visited-path heuristic of the default/example validators.
+func VerifIsVisited(path string, visited map[string]struct{}) bool { return isVisited(path, visited) }
+
+// VerifCompileRegexp exposes the cached regexp compilation.
+func VerifCompileRegexp(pattern string) (*re.Regexp, error) { return compileRegexp(pattern) }
+
+// VerifRegexpCacheSnapshot returns the source text of every cached expression by key.
+func VerifRegexpCacheSnapshot() map[string]string {
+	out := map[string]string{}
+	if cache, ok := reDict.Load().(map[string]*re.Regexp); ok {
+		for k, v := range cache {
+			if v == nil {
+				out[k] = "<nil>"
+			} else {
+				out[k] = v.String()
+			}
+		}
+	}
+	return out
+}
+
+// VerifResultInternals exposes the redeem-on-merge flag of a result.
+func VerifResultInternals(r *Result) (wantsRedeemOnMerge bool) { return r.wantsRedeemOnMerge }
